@@ -8,6 +8,7 @@ import (
 	"io/fs"
 	stdos "os"
 	"sort"
+	"strconv"
 	"strings"
 	"syscall"
 )
@@ -83,6 +84,7 @@ func yield(site string) {
 }
 
 func Reset(workdir string) {
+	tempSeq = 0
 	root = &node{dir: true, children: map[string]*node{}}
 	cwd = workdir
 	Effects = nil
@@ -390,6 +392,32 @@ type File struct {
 
 //go:norace
 func Create(name string) (*File, error) { return OpenFile(name, O_RDWR|O_CREATE|O_TRUNC, 0o666) }
+
+// tempSeq numbers the names CreateTemp hands out (deterministic: a counter, reset with the file system).
+var tempSeq int
+
+// CreateTemp creates a new file in dir (the simulated temporary directory when dir is empty) whose name is
+// pattern with its last "*" - or its end - replaced by a number.
+//
+//go:norace
+func CreateTemp(dir, pattern string) (*File, error) {
+	if dir == "" {
+		dir = TempDir()
+	}
+	for {
+		tempSeq++
+		n := strconv.Itoa(1000000000 + tempSeq)[1:]
+		name := pattern + n
+		if i := strings.LastIndex(pattern, "*"); i >= 0 {
+			name = pattern[:i] + n + pattern[i+1:]
+		}
+		f, err := OpenFile(dir+"/"+name, O_RDWR|O_CREATE|O_EXCL, 0o600)
+		if err != nil && IsExist(err) {
+			continue
+		}
+		return f, err
+	}
+}
 
 //go:norace
 func Open(name string) (*File, error) { return OpenFile(name, O_RDONLY, 0) }
